@@ -1,8 +1,9 @@
+"""C05 -- no accepted program can crash the interpreter.  Adversarial families and random ill-typed sessions judged by CalcSem
+(the verdict is: a value or a documented runtime error, never a host-level fault); programs beyond what an instruction can
+address must end in a compile error or work, never in a host-level fault either."""
+import json
 import vlib, props, semcheck
 from astlib import walk
-
-TITLE = {"C05": "for loops consume exactly what their iterators yield, lazily and in order",
-         "C03": "functions are pure: same arguments, same result, whatever happened before"}
 
 
 def run(tier, replay=None):
@@ -11,6 +12,31 @@ def run(tier, replay=None):
         return semcheck.replay_file(ck, replay)
     fams = props.c05_families(tier, vlib.seed())
     semcheck.run_families(ck, fams, props.c05_nontrivial, crash_is_violation=True)
+    # programs at and beyond the addressing limits (the shapes of C15, and one function body that is a single expression of 33000 terms):
+    # whatever the outcome -- works, or refused at compile time -- the interpreter must not fall over and the session must go on
+    import check_C15
+    big = []
+    for shape, n in ([("longjump", 33000), ("locals", 32800), ("jump", 32800), ("deepfor", 300)] if tier == "quick" else
+                     [("longjump", 33000), ("longjump", 66000), ("locals", 32800), ("locals", 65540), ("jump", 32800), ("jump", 65540), ("deepfor", 300), ("widefor", 300), ("globals", 16400)]):
+        items, _ = check_C15.script(shape, n)
+        big.append((shape, n, items))
+    big.append(("long-expression", 33000, ["f = (a) -> " + "+".join("a" for _ in range(33000)), "f(1)", "g = (a) -> [" + ", ".join("a" for _ in range(33000)) + "]", "#g(2)", "1 + 1"]))
+    reqs = [{"id": 900000 + k, "items": [{"src": t} for t in items], "stdin": [], "budget": 50000000} for k, (_, _, items) in enumerate(big)]
+    real = vlib.run_real(reqs, timeout=1800)
+    for (shape, n, items), rq in zip(big, reqs):
+        res = real.get(rq["id"])
+        ck.cov["evaluations"] += 1
+        ck.cov["traces_validated_against_impl"] += 1
+        if res is None:
+            raise vlib.Infra("no result for the oversized program %s/%d" % (shape, n))
+        bad = [o for o in res if o.get("kind") not in ("val", "err", "cerr", "perr")]
+        last = res[-1] if res else {}
+        if bad or len(res) != len(items) or last.get("val") != {"k": "int", "v": 2}:
+            o = bad[0] if bad else last
+            ck.violation("program at the addressing limits (%s, n=%d): %s" % (shape, n, ("the interpreter fell over: %s %s in %s phase" % (o.get("kind"), o.get("msg"), o.get("phase"))) if bad else
+                                                                              "the session did not go on to its last statement (1 + 1 gives %s)" % json.dumps({k: last.get(k) for k in ("kind", "val", "msg")})),
+                         {"shape": shape, "n": n})
+    ck.part("programs at and beyond the addressing limits", programs=len(big))
     ck.cov["rule"] = props.c05_rule
     ck.assumptions += ["CalcSem.tla as evaluated by TLC is the oracle; Unspecified sessions are only checked for no-crash"]
     return ck.finish()
